@@ -247,7 +247,10 @@ sexp sexp_extend_synclo_env (sexp ctx, sexp env) {
       sexp_env_renames(e2) = sexp_env_renames(e1);
 #endif
     }
-    if (!e2) { return sexp_global(ctx, SEXP_G_OOM_ERROR); }
+    if (!e2) {
+      sexp_gc_release1(ctx);
+      return sexp_global(ctx, SEXP_G_OOM_ERROR);
+    }
     sexp_env_parent(e2) = sexp_context_env(ctx);
   }
   sexp_gc_release1(ctx);
